@@ -27,8 +27,11 @@ func (s *Stamp) Validate() error {
 
 // In checks if the stamp is in the list of stamps.
 func (s *Stamp) In(ss []*Stamp) bool {
+	if s == nil {
+		return false
+	}
 	for _, r := range ss {
-		if s.Provider == r.Provider {
+		if r != nil && s.Provider == r.Provider {
 			return true
 		}
 	}
@@ -47,6 +50,9 @@ func detectDuplicateStamps(list interface{}) error {
 	set := []*Stamp{}
 	// loop through and check order of Since value
 	for _, v := range values {
+		if v == nil {
+			continue
+		}
 		if v.In(set) {
 			return fmt.Errorf("duplicate stamp '%v'", v.Provider)
 		}
@@ -58,11 +64,14 @@ func detectDuplicateStamps(list interface{}) error {
 // AddStamp makes it easier to add a new Stamp by replacing a previous
 // entry with a matching Key.
 func AddStamp(in []*Stamp, s *Stamp) []*Stamp {
+	if s == nil {
+		return in
+	}
 	if in == nil {
 		return []*Stamp{s}
 	}
 	for _, v := range in {
-		if v.Provider == s.Provider {
+		if v != nil && v.Provider == s.Provider {
 			*v = *s // copy in place
 			return in
 		}
@@ -76,7 +85,7 @@ func GetStamp(in []*Stamp, provider cbc.Key) *Stamp {
 		return nil
 	}
 	for _, v := range in {
-		if v.Provider == provider {
+		if v != nil && v.Provider == provider {
 			return v
 		}
 	}
@@ -91,7 +100,7 @@ func NormalizeStamps(in []*Stamp) []*Stamp {
 	}
 	out := make([]*Stamp, 0)
 	for _, v := range in {
-		if v.Value == "" || v.Provider == "" {
+		if v == nil || v.Value == "" || v.Provider == "" {
 			continue
 		}
 		out = append(out, v)
